@@ -52,16 +52,13 @@ Definition wcase := (list wcue * bool * text * impl_out)%type.
 Definition W (counter : text) (b e : Z) (p : list wnode) : wcue := mkW counter b e p.
 (* the output is exactly what the description prints for these cues, and they meet its side conditions *)
 Definition wprint_ok (w : wcase) : bool := let '(cs, _, txt, _) := w in text_eqb (wprint cs) txt && wwf cs.
-Definition wtrig_hours (w : wcase) : bool := let '(cs, _, _, _) := w in trigger_hours_1000 cs.
-(* S on the code: the reader returned the cues that were written *)
-Definition wspec_strict (w : wcase) : bool :=
+(* S on the code: the reader returned the cues that were written (no finding is recorded: no trigger) *)
+Definition wspec_ok (w : wcase) : bool :=
   let '(cs, _, _, out) := w in
   outcome_eqb (list_eqb cue_eqb) (outcome_map (map observe) out) (Ok (map wmeaning cs)).
-Definition wspec_ok (w : wcase) : bool := wtrig_hours w || wspec_strict w.
-(* the finding's shape: above 999 h the reader returns None *)
+(* M = S on the writer's output (the statement of C10_writer_roundtrip, evaluated) *)
 Definition wmodel_spec (w : wcase) : bool :=
   let '(cs, tr, txt, _) := w in
-  wtrig_hours w ||
   match run_m tr txt with
   | Unmodelled => true
   | got => outcome_eqb (list_eqb cue_eqb) (outcome_map (map observe) got) (Ok (map wmeaning cs))
